@@ -202,7 +202,9 @@ def body_same(a: ast.AST, b: ast.AST, ignore_name: bool = True) -> tuple[bool, s
 
     ea, eb = erase(a), erase(b)
     if isinstance(ea, (ast.FunctionDef, ast.AsyncFunctionDef)) and isinstance(eb, (ast.FunctionDef, ast.AsyncFunctionDef)):
-        ea, eb = alpha(clone(norm(ea))), alpha(clone(norm(eb)))
+        # (erased once more after normalising: an append loop that became a comprehension is
+        # `list(x)` like a comprehension written as such)
+        ea, eb = alpha(erase(clone(norm(ea)))), alpha(erase(clone(norm(eb))))
         for x in (ea, eb):
             for n_ in ast.walk(x):
                 for attr in ("_parent", "_orig"):
